@@ -13,6 +13,8 @@ GEN_DIR = os.path.join(VERIF, "lean", "PySMT", "Gen")
 # property id -> list of generator module names (tools/gen_<name>.py, each with
 # `generate(repo) -> {filename: lean_source}`)
 GENERATORS = {
+    "C13": ["logics"],
+    "C16": ["pendingpop"],
 }
 
 
